@@ -47,6 +47,7 @@ const c16SigLongAccount = "C16/proof-accepted-for-non-20-byte-account-signed-by-
 //   A B R E P     the 20-byte address of that key
 //   pad           12 fixed non-zero bytes;  zpad = 12 zero bytes (pad|X / zpad|X, X|pad: 32-byte module/ICA/ABI-word-like addresses)
 //   X[:19] X[1:]  the first / last 19 bytes of key X's address
+//   zero one ff   the 20-byte addresses 0x00…00, 0x00…01 (ecrecover precompile), 0xff…ff;  mod / fc = the vauth / fee collector module account
 // so "B|A" is the 40-byte address victim||attacker, "A|pad" a 32-byte address that starts with A's 20 bytes, "pad|A" one that ends with them.
 
 var c16Pad = []byte{0xc1, 0x6c, 0x16, 0x5a, 0xa5, 0x3c, 0xc3, 0x0f, 0xf0, 0x99, 0x66, 0x01}
@@ -63,8 +64,12 @@ type c16World struct {
 	msgCache      map[c16Op]*vauthtypes.MsgSubmitProofExternalOwnedAccount
 }
 
+// c16Sig is one signature variant: the string offered, who made it according to the way it was built (key name | ""), and what the
+// reference recovers from its bytes (c16Judge): the address it is a signature of the module's message by, if any.
 type c16Sig struct {
 	s, signer string
+	rec       common.Address
+	recOK     bool
 	canonical bool
 }
 
@@ -123,7 +128,10 @@ func (cw *c16World) addr(expr string) sdk.AccAddress {
 	}
 	var out []byte
 	for _, part := range strings.Split(expr, "|") {
+		sp, isSpecial := c16Special(part)
 		switch {
+		case isSpecial:
+			out = append(out, sp...)
 		case part == "pad":
 			out = append(out, c16Pad...)
 		case part == "zpad":
@@ -144,10 +152,10 @@ func (cw *c16World) balance(ctx sdk.Context, expr string) *big.Int {
 	return cw.w.App.BankKeeper.GetBalance(ctx, cw.addr(expr), world.Denom).Amount.BigInt()
 }
 
-// c16Universe is the set of addresses whose proof status is observed after every transition: the keys, and for the two provable keys
-// every longer / shorter address that collides with them on its first or last 20 (19) bytes.
+// c16Universe is the set of addresses whose proof status is observed after every transition: the keys, the special addresses no key
+// controls, and for the two provable keys every longer / shorter address that collides with them on its first or last 20 (19) bytes.
 func c16Universe() []string {
-	u := []string{"A", "B", "R", "E", "P"}
+	u := append([]string{"A", "B", "R", "E", "P"}, c16Specials...)
 	for _, p := range [][2]string{{"A", "B"}, {"B", "A"}} {
 		x, y := p[0], p[1]
 		u = append(u, x+"|pad", "pad|"+x, x+"|zpad", "zpad|"+x, x+"|"+y, x+"|R", "R|"+x, x+"[:19]", x+"[1:]")
@@ -163,7 +171,7 @@ func c16Universe() []string {
 type c16Op struct {
 	Submitter string `json:"submitter"`       // address expression of a funded submitter: R (rich) | E (exactly the fee) | P (one short) | A|pad (rich, 32 bytes) | pad|B (exactly the fee, 32 bytes)
 	Account   string `json:"account"`         // address expression | self
-	Sig       string `json:"sig"`             // A | B | R | A-upper | A-64 | A-66 | empty | garbage | A-malleated | A-other-msg | A-v27
+	Sig       string `json:"sig"`             // A | B | R | A-upper | A-64 | A-66 | empty | garbage | A-malleated | A-other-msg | A-v27 | the family of c16_shapes.go: x:<RS>:<V> | len1 | len64-2098 | len66-lead
 	Spell     string `json:"spell,omitempty"` // "" = lower-case bech32 of the account, "upper" = the all-upper-case spelling of the same address
 }
 
@@ -185,49 +193,71 @@ func signMsg(a *world.Acct, msg string) []byte {
 
 // sigOf returns the hex signature string for a variant and whether it is (an encoding of) a signature made by a known key
 // over the module's message: signer = key name | "" ; canonical = produced exactly as a wallet would (lower-case hex, 65 bytes, low s).
-func (cw *c16World) sigOf(v string) (s string, signer string, canonical bool) {
+func (cw *c16World) sigOf(v string) c16Sig {
 	if c, ok := cw.sigCache[v]; ok {
-		return c.s, c.signer, c.canonical
+		return c
 	}
 	if cw.sigCache == nil {
 		cw.sigCache = map[string]c16Sig{}
 	}
-	s, signer, canonical = cw.sigOfUncached(v)
-	cw.sigCache[v] = c16Sig{s, signer, canonical}
-	return
+	s, signer, built, canonical := cw.sigOfUncached(v)
+	c := c16Sig{s: s, signer: signer}
+	c.rec, c.recOK, c.canonical = c16Judge(s)
+	if built {
+		// the variants built from a known key: what the reference recovers from the bytes must be what the construction says
+		bad := false
+		if signer != "" {
+			bad = c.canonical != canonical || !c.recOK || c.rec != cw.acct(signer).Eth()
+		} else {
+			for _, k := range []string{"A", "B", "R", "E", "P"} {
+				bad = bad || (c.recOK && c.rec == cw.acct(k).Eth())
+			}
+		}
+		if bad {
+			fmt.Fprintf(os.Stderr, "HARNESS-ERROR in C16: signature variant %s built as signer=%q canonical=%v, reference recovers (%s, %v) canonical=%v\n", v, signer, canonical, c.rec, c.recOK, c.canonical)
+			os.Exit(2)
+		}
+	}
+	cw.sigCache[v] = c
+	return c
 }
 
-func (cw *c16World) sigOfUncached(v string) (s string, signer string, canonical bool) {
+// sigOfUncached builds a variant; built = the signer / canonical results are known by construction (the older variants), otherwise
+// (the structured family of c16_shapes.go) only the reference recovery says what the bytes are.
+func (cw *c16World) sigOfUncached(v string) (s string, signer string, built, canonical bool) {
 	if cw.sigA == nil {
 		cw.sigA = signMsg(cw.A, vauthtypes.MessageToSign)
 	}
 	a := cw.sigA
 	switch v {
 	case "A":
-		return "0x" + hex.EncodeToString(a), "A", true
+		return "0x" + hex.EncodeToString(a), "A", true, true
 	case "B", "R", "E", "P":
-		return "0x" + hex.EncodeToString(signMsg(cw.acct(v), vauthtypes.MessageToSign)), v, true
+		return "0x" + hex.EncodeToString(signMsg(cw.acct(v), vauthtypes.MessageToSign)), v, true, true
 	case "A-upper":
-		return "0x" + strings.ToUpper(hex.EncodeToString(a)), "A", false
+		return "0x" + strings.ToUpper(hex.EncodeToString(a)), "A", true, false
 	case "A-64":
-		return "0x" + hex.EncodeToString(a[:64]), "", false
+		return "0x" + hex.EncodeToString(a[:64]), "", true, false
 	case "A-66":
-		return "0x" + hex.EncodeToString(append(append([]byte{}, a...), 0)), "", false
+		return "0x" + hex.EncodeToString(append(append([]byte{}, a...), 0)), "", true, false
 	case "empty":
-		return "0x", "", false
+		return "0x", "", true, false
 	case "garbage":
-		return "0x" + strings.Repeat("ab", 65), "", false
+		return "0x" + strings.Repeat("ab", 65), "", true, false
 	case "A-malleated":
 		n := ethcrypto.S256().Params().N
 		s := new(big.Int).Sub(n, new(big.Int).SetBytes(a[32:64]))
 		m := append(append(append([]byte{}, a[:32]...), common32(s)...), a[64]^1)
-		return "0x" + hex.EncodeToString(m), "A", false
+		return "0x" + hex.EncodeToString(m), "A", true, false
 	case "A-other-msg":
-		return "0x" + hex.EncodeToString(signMsg(cw.A, vauthtypes.MessageToSign+"x")), "", false
+		return "0x" + hex.EncodeToString(signMsg(cw.A, vauthtypes.MessageToSign+"x")), "", true, false
 	case "A-v27":
 		m := append([]byte{}, a...)
 		m[64] += 27
-		return "0x" + hex.EncodeToString(m), "", false
+		return "0x" + hex.EncodeToString(m), "", true, false
+	}
+	if bz, ok := c16ShapeBytes(a, v); ok {
+		return "0x" + hex.EncodeToString(bz), "", false, false
 	}
 	panic("sig " + v)
 }
@@ -255,15 +285,16 @@ func (v c16Verdict) kind() int {
 	return c16Unexplained
 }
 
-func (cw *c16World) judge(acc []byte, signer string) c16Verdict {
-	if signer == "" {
+// judge: a proof for acc is acceptable only with a signature of the module's message that recovers (reference recovery, from the bytes)
+// to exactly acc; any recovery failure is "no signature", whatever the account.
+func (cw *c16World) judge(acc []byte, sig c16Sig) c16Verdict {
+	if !sig.recOK {
 		return c16Verdict{}
 	}
-	k := cw.acct(signer)
-	if len(acc) == common.AddressLength && bytes.Equal(acc, k.Acc()) {
+	if len(acc) == common.AddressLength && bytes.Equal(acc, sig.rec.Bytes()) {
 		return c16Verdict{sigValid: true}
 	}
-	return c16Verdict{defectShape: len(acc) != common.AddressLength && common.BytesToAddress(acc) == k.Eth()}
+	return c16Verdict{defectShape: len(acc) != common.AddressLength && common.BytesToAddress(acc) == sig.rec}
 }
 
 func (cw *c16World) opAddrs(op c16Op) (sub, acc sdk.AccAddress) {
@@ -292,7 +323,7 @@ func (cw *c16World) opMsg(op c16Op) *vauthtypes.MsgSubmitProofExternalOwnedAccou
 
 func (cw *c16World) opMsgUncached(op c16Op) *vauthtypes.MsgSubmitProofExternalOwnedAccount {
 	sub, acc := cw.opAddrs(op)
-	sig, _, _ := cw.sigOf(op.Sig)
+	sig := cw.sigOf(op.Sig).s
 	accStr := acc.String()
 	if op.Spell == "upper" {
 		accStr = strings.ToUpper(accStr)
@@ -396,8 +427,7 @@ func (cw *c16World) apply(m *c16Model, op c16Op, ok bool) {
 		return
 	}
 	_, acc := cw.opAddrs(op)
-	_, signer, _ := cw.sigOf(op.Sig)
-	v := cw.judge(acc, signer)
+	v := cw.judge(acc, cw.sigOf(op.Sig))
 	k := hex.EncodeToString(acc)
 	if m.Stored[k].Kind == 0 {
 		msg := cw.opMsg(op)
@@ -475,8 +505,9 @@ func (cw *c16World) observeProofs(stored map[string]c16Rec, parent *sdk.Context,
 func (cw *c16World) check(m *c16Model, parent sdk.Context, parentHash [32]byte, post sdk.Context, op c16Op, ok bool, errMsg string, reached, observe bool) (bad []c16Bad) {
 	fail := func(f string, a ...interface{}) { bad = append(bad, c16Bad{msg: fmt.Sprintf(f, a...)}) }
 	sub, acc := cw.opAddrs(op)
-	_, signer, canonical := cw.sigOf(op.Sig)
-	v := cw.judge(acc, signer)
+	si := cw.sigOf(op.Sig)
+	canonical := si.canonical
+	v := cw.judge(acc, si)
 	self := bytes.Equal(sub, acc)
 	key := hex.EncodeToString(acc)
 	canPay := m.Bal[op.Submitter].Cmp(c16Cost) >= 0
@@ -484,9 +515,11 @@ func (cw *c16World) check(m *c16Model, parent sdk.Context, parentHash [32]byte, 
 		switch {
 		case v.sigValid:
 		case v.defectShape:
-			bad = append(bad, c16Bad{sig: c16SigLongAccount, msg: fmt.Sprintf("proof stored for the %d-byte account %s on a signature by %s, whose address is only the account's last 20 bytes", len(acc), op.Account, signer)})
+			bad = append(bad, c16Bad{sig: c16SigLongAccount, msg: fmt.Sprintf("proof stored for the %d-byte account %s on a signature by %s, whose address is only the account's last 20 bytes", len(acc), op.Account, si.rec)})
+		case !si.recOK:
+			fail("proof stored for %s although the signature offered (%s) is no signature at all: no public key can be recovered from it", op.Account, op.Sig)
 		default:
-			fail("proof stored although the signature was not made by the account's key over the module's message")
+			fail("proof stored for %s although the signature was not made by that address's key over the module's message (it recovers to %s)", op.Account, si.rec)
 		}
 		if m.Stored[key].Kind != 0 {
 			fail("an already proven account was proven again")
@@ -637,7 +670,7 @@ func c16Alphabet(thorough bool) []c16Op {
 // ---------------------------------------------------------------------------
 
 type c16Route struct {
-	Proven  []string `json:"proven"`  // proof submissions sent by R in earlier blocks: "account" (signed by that key) or "account/signer" (address expressions)
+	Proven  []string `json:"proven"`  // proof submissions sent by R in earlier blocks: "account" (signed by that key) or "account/signature variant" (address expression / variant of c16Op.Sig)
 	Msg     string   `json:"msg"`     // vesting | periodic | permanent
 	Target  string   `json:"target"`  // address expression
 	Routing string   `json:"routing"` // top | exec1..exec5 | grant | beside-send
@@ -689,8 +722,9 @@ func c16RunRoute(c c16Route) (fs []ev.Finding, outcome string) {
 			accExpr, signer = p[:i], p[i+1:]
 		}
 		acc := cw.addr(accExpr)
-		sig, _, _ := cw.sigOf(signer)
-		v := cw.judge(acc, signer)
+		si := cw.sigOf(signer)
+		sig := si.s
+		v := cw.judge(acc, si)
 		msg := &vauthtypes.MsgSubmitProofExternalOwnedAccount{Submitter: cw.R.Bech(), Account: acc.String(), Signature: sig}
 		supBefore := w.Supply(w.Ctx(), world.Denom)
 		br := w.Block([][]byte{w.CosmosTx(cw.R, accNumR, seq, 2_000_000, fee, msg)})
@@ -704,7 +738,7 @@ func c16RunRoute(c c16Route) (fs []ev.Finding, outcome string) {
 			seq++
 		}
 		key := hex.EncodeToString(acc)
-		desc := fmt.Sprintf("tx by R proving %s (%d bytes) with a signature by %s: code=%d log=%s", accExpr, len(acc), signer, r.Code, r.Log)
+		desc := fmt.Sprintf("tx by R proving %s (%d bytes) with the signature variant %s: code=%d log=%s", accExpr, len(acc), signer, r.Code, r.Log)
 		if r.Code == 0 {
 			if stored[key].Kind != 0 {
 				fail("proven-address-never-proven-again", desc)
@@ -873,15 +907,27 @@ func c16Routes(thorough bool) []c16Route {
 // does not rule out (account without proof, submitter able to pay) are followed; reference states identify nodes, and the full
 // store hash of every accepted transition is compared with the hash of the node of the same reference state. The transitions
 // (every state × every op, the ruled-out ones too), evaluated against the reference, are divided among the shards.
-// The first c16CoreOps ops of an alphabet (20-byte accounts and submitters) are applied to every state of depth < maxDepth, the others
-// to every state of depth < wideDepth.
-func c16BFS(run *ev.Run, cw *c16World, name string, alpha []c16Op, maxDepth, wideDepth, shard, n int) {
+// The first c16CoreOps ops of an alphabet (20-byte accounts and submitters) are applied to every state of depth < maxDepth, the
+// colliding-address ops to every state of depth < wideDepth, the family ops (alpha[famStart:], signature shapes × special accounts) to
+// every state of depth < famDepth. A state reached by a family op that stored a proof the reference does not allow is reported,
+// observed (store, ante decorator) and not expanded further: everything beyond it would repeat that violation.
+func c16BFS(run *ev.Run, cw *c16World, name string, alpha []c16Op, famStart, maxDepth, wideDepth, famDepth, shard, n int) {
 	type node struct {
 		ctx   sdk.Context
 		hash  [32]byte
 		m     *c16Model
 		path  []c16Op
 		depth int
+		leaf  bool
+	}
+	limit := func(oi int) int {
+		switch {
+		case oi < c16CoreOps:
+			return maxDepth
+		case oi < famStart:
+			return wideDepth
+		}
+		return famDepth
 	}
 	var reach []int
 	reaches := map[int]bool{}
@@ -893,16 +939,16 @@ func c16BFS(run *ev.Run, cw *c16World, name string, alpha []c16Op, maxDepth, wid
 	}
 	root := cw.initialModel()
 	byKey := map[string]int{root.key(cw.funded): 0}
-	nodes := []node{{cw.root, cw.w.Hash(cw.root), root, nil, 0}}
+	nodes := []node{{cw.root, cw.w.Hash(cw.root), root, nil, 0, false}}
 	for i := 0; i < len(nodes); i++ {
 		nd := nodes[i]
-		if nd.depth >= maxDepth {
+		if nd.depth >= maxDepth || nd.leaf {
 			continue
 		}
 		for _, oi := range reach {
 			op := alpha[oi]
-			if oi >= c16CoreOps && nd.depth >= wideDepth {
-				break
+			if nd.depth >= limit(oi) {
+				continue
 			}
 			if !cw.mayAccept(nd.m, op) {
 				continue
@@ -918,7 +964,9 @@ func c16BFS(run *ev.Run, cw *c16World, name string, alpha []c16Op, maxDepth, wid
 				continue
 			}
 			byKey[k] = len(nodes)
-			nodes = append(nodes, node{nctx, cw.w.Hash(nctx), m, append(append([]c16Op{}, nd.path...), op), nd.depth + 1})
+			_, acc := cw.opAddrs(op)
+			leaf := oi >= famStart && cw.judge(acc, cw.sigOf(op.Sig)).kind() != c16Legit
+			nodes = append(nodes, node{nctx, cw.w.Hash(nctx), m, append(append([]c16Op{}, nd.path...), op), nd.depth + 1, leaf})
 		}
 	}
 	fix := nodes[len(nodes)-1].depth < maxDepth
@@ -935,12 +983,12 @@ func c16BFS(run *ev.Run, cw *c16World, name string, alpha []c16Op, maxDepth, wid
 				run.Fail(ev.Finding{Clause: "vesting-account-only-for-proven-address", Signature: sig, Detail: fmt.Sprint(nd.path) + " => " + msg, Replay: map[string]interface{}{"path": nd.path}})
 			})
 		}
-		if nd.depth >= maxDepth {
+		if nd.depth >= maxDepth || nd.leaf {
 			continue
 		}
 		for oi, op := range alpha {
-			if oi >= c16CoreOps && nd.depth >= wideDepth {
-				break
+			if nd.depth >= limit(oi) {
+				continue
 			}
 			t++
 			if t%n != shard {
@@ -973,7 +1021,10 @@ func c16BFS(run *ev.Run, cw *c16World, name string, alpha []c16Op, maxDepth, wid
 				cls = "panic-refused"
 			}
 			_, acc := cw.opAddrs(op)
-			run.Outcome(fmt.Sprintf("submit/%s/len%d/%s", op.Sig, len(acc), cls))
+			run.Outcome(fmt.Sprintf("submit/%s/%s/%s", op.Sig, c16AccClass(op, acc), cls))
+			if oi >= famStart {
+				run.Count("family_transitions", 1)
+			}
 			for _, b := range bad {
 				run.Fail(ev.Finding{Clause: "proof-store-matches-reference", Signature: b.sig, Detail: fmt.Sprint(path) + " => " + b.msg, Replay: map[string]interface{}{"path": path}})
 			}
@@ -987,6 +1038,7 @@ func c16BFS(run *ev.Run, cw *c16World, name string, alpha []c16Op, maxDepth, wid
 	run.Coverage["submission_states/"+name] = len(nodes)
 	run.Coverage["submission_depth_reached/"+name] = nodes[len(nodes)-1].depth
 	run.Coverage["submission_ops/"+name] = len(alpha)
+	run.Coverage["submission_family_ops/"+name] = len(alpha) - famStart
 	run.Coverage["submission_ops_passing_validate_basic/"+name] = len(reach)
 }
 
@@ -994,8 +1046,9 @@ func runC16(replay string) int {
 	run := ev.NewRun("C16", "model_checking")
 	run.Assumptions = []string{
 		"part 1 drives ValidateBasic + the real vauth message server on CacheContext branches (a refusal or a handler panic discards the branch as baseapp does) and the real vesting authorization ante decorator on every reached proof-store state; part 2 drives complete transactions through FinalizeBlock",
-		"which key signed which message is known by construction; upper-case and malleated encodings of a valid signature carry no expectation on acceptance, only on effects",
-		"reference: the proven addresses are a set of exact byte strings; a proof for account X is acceptable only when the signature was made by the key whose 20-byte Ethereum address is X, so no proof is acceptable for an account address whose length is not 20 bytes",
+		"whether a byte string is a signature of the module's message, and by which address, is computed by the reference from the bytes alone: textbook public-key recovery in big-integer arithmetic on secp256k1 (65 bytes R||S||V, 1<=R,S<n, V in 0..3), cross-checked on every variant with go-ethereum's crypto.Ecrecover (a disagreement aborts the run with exit 2); any recovery failure means 'no signature'. x/vauth/utils is never consulted. For the variants built from a known key the recovered address must be that key's (exit 2 otherwise)",
+		"upper-case, high-S (malleated) and self-proving encodings of a genuinely valid signature carry no expectation on acceptance, only on effects; a valid signature spelled as a wallet spells it (lower-case hex, 65 bytes, V in {0,1}, low S) for another account than the submitter must be accepted",
+		"reference: the proven addresses are a set of exact byte strings; a proof for account X is acceptable only when the signature recovers to the 20-byte address X, so no proof is acceptable for an account address whose length is not 20 bytes, and none of the offered byte strings is acceptable for the addresses no key controls (zero address, 0x..01, 0xff..ff, module accounts)",
 		"submitters whose address is not 20 bytes are funded genesis accounts driven at message-server level only (no key can sign a transaction for them)",
 	}
 	if replay != "" {
@@ -1035,22 +1088,28 @@ func runC16(replay string) int {
 			return fs
 		})
 	}
-	routes := c16Routes(run.Thorough())
+	routes := append(c16Routes(run.Thorough()), c16ShapeRoutes(run.Thorough())...)
 	type pass struct {
 		name      string
 		alpha     []c16Op
+		famStart  int
 		maxDepth  int // ops on 20-byte addresses only
-		wideDepth int // the other ops
+		wideDepth int // the colliding-address ops
+		famDepth  int // the family ops: signature shapes × special accounts
 	}
-	passes := []pass{{"quick-alphabet", c16Alphabet(false), 4, 3}}
+	mk := func(name string, thorough bool, maxDepth, wideDepth, famDepth int) pass {
+		head := c16Alphabet(thorough)
+		return pass{name, append(head, c16FamilyOps(thorough, head)...), len(head), maxDepth, wideDepth, famDepth}
+	}
+	passes := []pass{mk("quick-alphabet", false, 4, 3, 2)}
 	if run.Thorough() {
-		passes = []pass{{"quick-alphabet", c16Alphabet(false), 8, 8}, {"thorough-alphabet", c16Alphabet(true), 3, 3}}
+		passes = []pass{mk("quick-alphabet", false, 8, 8, 8), mk("thorough-alphabet", true, 3, 3, 3)}
 	}
 	run.Sharded(Shards(), func(shard, n int) {
 		// part 1
 		cw := c16Setup(true)
 		for _, p := range passes {
-			c16BFS(run, cw, p.name, p.alpha, p.maxDepth, p.wideDepth, shard, n)
+			c16BFS(run, cw, p.name, p.alpha, p.famStart, p.maxDepth, p.wideDepth, p.famDepth, shard, n)
 		}
 		// part 2
 		for i, c := range routes {
@@ -1066,8 +1125,11 @@ func runC16(replay string) int {
 			}
 			run.Count("transitions", int64(len(c.Proven)+1))
 			run.Count("routing_cases", 1)
-			tl := len(c16AddrLen(c.Target))
-			run.Outcome(fmt.Sprintf("route/%s/len%d/%s", c.Routing, tl, oc))
+			tl := fmt.Sprintf("len%d", len(c16AddrLen(c.Target)))
+			if _, sp := c16Special(c.Target); sp {
+				tl = c.Target
+			}
+			run.Outcome(fmt.Sprintf("route/%s/%s/%s", c.Routing, tl, oc))
 			run.Distinct(fmt.Sprintf("route:%v:%s:%s:%s:%s", c.Proven, c.Msg, c.Target, c.Routing, oc))
 			if i%(len(routes)/2+1) == 0 {
 				run.Sample(map[string]interface{}{"route": c, "outcome": oc})
@@ -1085,13 +1147,14 @@ func runC16(replay string) int {
 		if p.maxDepth > md {
 			md = p.maxDepth
 		}
-		desc += fmt.Sprintf("%s (%d ops; the %d ops on 20-byte addresses applied to every state of depth < %d, the others to every state of depth < %d, or to fixpoint); ", p.name, len(p.alpha), c16CoreOps, p.maxDepth, p.wideDepth)
+		desc += fmt.Sprintf("%s (%d ops; the %d ops on 20-byte key addresses applied to every state of depth < %d, the %d colliding-address ops to every state of depth < %d, the %d family ops to every state of depth < %d, or to fixpoint); ", p.name, len(p.alpha), c16CoreOps, p.maxDepth, p.famStart-c16CoreOps, p.wideDepth, len(p.alpha)-p.famStart, p.famDepth)
 	}
 	run.Coverage["max_depth"] = md
-	run.Coverage["rule"] = fmt.Sprintf("addresses are expressions over the keys A, B (provable), R, E, P (submitters): the 20-byte key address, and 32-, 40- and 19-byte addresses built to collide with them on their first or last 20 (19) bytes (X||pad, pad||X, X||zeros, zeros||X, victim||attacker, attacker||victim, X[:19], X[1:]); %d of them are observed (HasProof, GetProof record, raw store keys, ante decorator) on every reached state. "+
-		"part 1: BFS over branch states with the submission alphabets %sops = submitter {rich, exactly-the-fee, one-short, funded 32-byte A||pad (3 fees), funded 32-byte pad||B (1 fee)} × account {A, B, submitter itself, the colliding non-20-byte addresses; A and B also under the upper-case spelling of the bech32 address} × signature variants {A's, B's (thorough alphabet: R's, the submitter's), upper-case hex, 64/66 bytes, empty, garbage, (r,n−s,v⊕1) malleated, signed other message, v+27}; the quick alphabet crosses the non-20-byte accounts with signatures {A's, B's, garbage} and the non-20-byte submitters with {A's, B's} only, the thorough alphabet is the full product; reference state (stored records as exact byte strings, balances) as state identity cross-checked with the full store hash, every transition compared with the reference, and the real vesting ante decorator run on every reached state for 3 message kinds × every observed address; "+
-		"part 2: %d complete-transaction cases (proof submissions in earlier blocks {∅,{A},{A,B}, victim||attacker signed by the attacker, attacker||victim signed by the attacker, pad||A signed by A after A, A||pad signed by A; thorough: 7 more; quick: routings other than top / exec1 / grant with 4 of the 7} × 3 vesting-creation messages × target {A, B and the colliding 32/40-byte (thorough: also zero-padded and 19-byte) addresses} × routing {top level, MsgExec nested 1..5 with grantee = granter, MsgGrant, the nested message / the grant listed after a harmless MsgExec or MsgSend, or after a harmless MsgExec inside an outer MsgExec}) through FinalizeBlock",
-		len(c16Universe()), desc, len(routes))
+	run.Coverage["rule"] = fmt.Sprintf("addresses are expressions over the keys A, B (provable), R, E, P (submitters): the 20-byte key address, the special 20-byte addresses no key controls (zero address, 0x..01 = ecrecover precompile, 0xff..ff, the vauth and fee collector module accounts), and 32-, 40- and 19-byte addresses built to collide with them on their first or last 20 (19) bytes (X||pad, pad||X, X||zeros, zeros||X, victim||attacker, attacker||victim, X[:19], X[1:]); %d of them are observed (HasProof, GetProof record, raw store keys, ante decorator) on every reached state. "+
+		"part 1: BFS over branch states with the submission alphabets %sops = submitter {rich, exactly-the-fee, one-short, funded 32-byte A||pad (3 fees), funded 32-byte pad||B (1 fee)} × account {A, B, submitter itself, the colliding non-20-byte addresses; A and B also under the upper-case spelling of the bech32 address} × signature variants {A's, B's (thorough alphabet: R's, the submitter's), upper-case hex, 64/66 bytes, empty, garbage, (r,n−s,v⊕1) malleated, signed other message, v+27}; the quick alphabet crosses the non-20-byte accounts with signatures {A's, B's, garbage} and the non-20-byte submitters with {A's, B's} only, the thorough alphabet is the full product; "+
+		"family ops (applied to every state of depth < the family depth): signature shapes = the variants above + {1 byte, 64-byte EIP-2098 compact form, zero byte || signature} + 65-byte R||S||V with (R,S) in {A's genuine (r,s), R=0, S=0, R=S=0, R=n, R=n-1, S=n, S=n-s (high), all 0xff; thorough: R=n+1, R=p, R=1, S=n-1, S=n+1, S=1} × V in {0,1,2,27,28,29,255; thorough: 3,4,26,30,31,35,36,128,254} (%d shapes quick, %d thorough), crossed in the quick alphabet with account {A, zero address, 0x..01, vauth module account, 0xff..ff, the submitter itself} for the rich submitter and with {A, zero address} for the exactly-the-fee and one-short submitters, in the thorough alphabet with account {A, B, zero, 0x..01, vauth module, fee collector, 0xff..ff, submitter itself} × all 5 submitters; a state in which a family op stored a proof the reference forbids is reported, observed and not expanded; reference state (stored records as exact byte strings, balances) as state identity cross-checked with the full store hash, every transition compared with the reference, and the real vesting ante decorator run on every reached state for 3 message kinds × every observed address; "+
+		"part 2: %d complete-transaction cases (proof submissions in earlier blocks {∅,{A},{A,B}, victim||attacker signed by the attacker, attacker||victim signed by the attacker, pad||A signed by A after A, A||pad signed by A; thorough: 7 more; quick: routings other than top / exec1 / grant with 4 of the 7} × 3 vesting-creation messages × target {A, B and the colliding 32/40-byte (thorough: also zero-padded and 19-byte) addresses} × routing {top level, MsgExec nested 1..5 with grantee = granter, MsgGrant, the nested message / the grant listed after a harmless MsgExec or MsgSend, or after a harmless MsgExec inside an outer MsgExec}; plus the widened dimensions: every signature shape offered by R for the zero address in an earlier block then each message kind with the zero address as top-level target; 11 representative shapes (unrecoverable classes, garbage, empty, A's genuine signature) offered for each special address then that address as target over the routings {top, exec1, grant, sib-exec1; thorough: all 14}; the special addresses as targets with no submission and after genuine proofs of A and B; A's genuine proof before / after a shape offered for the zero address, and the V=0/1/27 and R=S=0 shapes offered for A itself) through FinalizeBlock",
+		len(c16Universe()), desc, len(c16Shapes(false)), len(c16Shapes(true)), len(routes))
 	return run.Finish()
 }
 
